@@ -116,6 +116,46 @@ M10_REVIEWED = {
 }
 
 
+def check_conversion_twins(ctx, prog, tag):
+    """M11 (after seed C12-9): an argument conversion exists twice, for callees with and without mutable access to the
+    state (`from_state_and_value_mut` / `from_state_and_value`, and the `_owned` pair).  Where one twin asks the undefined
+    behaviour about its operand, the other one does too - by its own check or by forwarding to the twin that has it.  A
+    twin that is missing falls back to the trait's default, which converts without a state and without the check."""
+    impls = {}
+    for k, f in prog.fns.items():
+        if f.crate != "minijinja" or f.kind == "closure" or " as minijinja::value::argtypes::ArgType<" not in k:
+            continue
+        ty, meth = k.rsplit(">::", 1)
+        impls.setdefault(ty, {})[meth] = f
+    n = 0
+
+    def asks(f, seen=()):
+        for g in [f] + prog.closures_of(f.path):
+            for c in g.calls():
+                if c.name in M10_ASSERT:
+                    return True
+                tgt = prog.fns.get(c.resolved or c.path or "")
+                if tgt is not None and tgt.path.rsplit(">::", 1)[0] == f.path.rsplit(">::", 1)[0] and tgt.path not in seen and tgt is not f:
+                    if asks(tgt, seen + (f.path,)):
+                        return True
+        return False
+    for ty, ms in sorted(impls.items()):
+        for base in ("from_state_and_value", "from_state_and_value_owned", "from_state_and_values"):
+            a, b = ms.get(base), ms.get(base + "_mut")
+            for have, other, oname in ((a, b, base + "_mut"), (b, a, base)):
+                if have is None or not asks(have):
+                    continue
+                n += 1
+                ok = other is not None and asks(other)
+                ctx.ob("C12.M11.both-conversion-paths-ask-the-mode", "%s%s|%s" % (tag, ty.split(" as ")[0].lstrip("<"), oname), ok,
+                       "the %s conversion of %s asks the undefined behaviour about its operand, its twin %s %s: callees that "
+                       "take the state the other way convert an undefined operand silently under Strict / SemiStrict"
+                       % (have.path.rsplit("::", 1)[-1], ty.split(" as ")[0].lstrip("<"), oname,
+                          "does not" if other is not None else "is missing (the trait default converts without the state)"), have.loc)
+    return n
+
+
+
 def check_builtin_operands(ctx, prog, tag):
     """M10: "at every site of the language printing and iterating an undefined fail under Strict and SemiStrict".  A
     builtin filter / function that receives its operand as a raw `Value` (no conversion to a concrete type, which would
@@ -157,6 +197,8 @@ def check_builtin_operands(ctx, prog, tag):
                    "%s %s a raw `Value` operand without asking the undefined behaviour first: an undefined operand is "
                    "processed silently under Strict / SemiStrict" % (root.path.split("::")[-1], kind), f.where(c.bb))
     ctx.floor("C12.M10 builtin sites iterating / printing a raw operand" + tag, n, 8)
+    n11 = check_conversion_twins(ctx, prog, tag)
+    ctx.floor("C12.M11 argument conversions that ask the mode" + tag, n11, 4)
     # M10c: where the operands come as a collection (`Rest<Value>`) the helper is applied in a loop; that loop must reach
     # every operand: it is left only when the iterator is exhausted or with an error.  A `break` out of it (say, at the
     # first operand of unknown length) leaves the operands behind it unasked (seed C12-8).
